@@ -13,9 +13,10 @@ POOL_STR = [("S", "a", ["a"]), ("S", "b", ["b"]), ("S", "ab", ["ab"]), ("S", "ab
             ("S", ";", [";"]), ("S", "é", ["é"]), ("S", "→", ["→"])]
 POOL_RE = [("R", r"\d+", ["0", "42", "007"]), ("R", r"[a-z]+", ["x", "if", "abc", "ab"]),
            ("R", r"[a-z][a-z0-9]*", ["x1", "a", "ab2"]), ("R", r"\d+\.\d+", ["1.5", "0.0"]),
-           ("R", r'"[^"]*"', ['""', '"a b"', '"é"']), ("R", r"[α-ω]+", ["αβ", "ω"]),
+           ("R", r'"[^"]*"', ['""', '"a b"', '"\u00e9"', '"x\n\u017e\u0107"', '"\n\u2192"']), ("R", r"[α-ω]+", ["αβ", "ω"]),
            ("R", r"[A-Z]\w*", ["Ab", "X"]), ("R", r"(a|b)+", ["abba", "b"]), ("R", r"a*b", ["aab", "b"])]
-WS_CHOICES = [" ", " ", " ", "  ", "\t", "\n", "\r\n", " \n  ", " ", "　", ""]
+WS_CHOICES = [" ", " ", " ", "  ", "\t", "\n", "\r\n", " \n  ", "\u00a0", "\u3000", "", "\n\u3000", "\n\u00a0 ",
+              " \n\u2003\u2003", "\u000b", "\u0085"]
 
 
 class BG:
